@@ -35,29 +35,53 @@ structure ARes where
   deriving DecidableEq, Repr
 
 /-- one micro step on a window of exactly `lookahead` bytes -/
-def micro (c : Core) (win : Bytes) : (Nat × Nat) × FS × List FrameOut × Option Stop :=
-  pesIter true false 0 c.lookahead c.fs win
+def micro (cfg : SrcCfg) (c : Core) (win : Bytes) : (Nat × Nat) × FS × List FrameOut × Option Stop :=
+  pesIter true cfg 0 c.lookahead c.fs win
 
 /-- the stream machine; structural recursion on the stream -/
-def arun : Core → Bytes → ARes
+def arun (cfg : SrcCfg) : Core → Bytes → ARes
   | c, [] => { core := c, pend := [], frames := [], stop := none }
   | c, x :: L =>
-    if c.skip > 0 then arun { c with skip := c.skip - 1 } L
+    if c.skip > 0 then arun cfg { c with skip := c.skip - 1 } L
     else if (x :: L).length < c.lookahead then { core := c, pend := x :: L, frames := [], stop := none }
     else
-      match micro c ((x :: L).take c.lookahead) with
+      match micro cfg c ((x :: L).take c.lookahead) with
       | (_, fs', outs, some stop) =>
         { core := { c with fs := fs' }, pend := x :: L, frames := outs, stop := some stop }
       | ((sk, la), fs', outs, none) =>
-        let r := arun { skip := sk - 1, lookahead := la, fs := fs' } L
+        let r := arun cfg { skip := sk - 1, lookahead := la, fs := fs' } L
         { r with frames := outs ++ r.frames }
 
 /-- the frames a PES stream carries, as a function of the whole stream -/
-def frames (stream : Bytes) : List FrameOut := (arun Core.init stream).frames
+def frames (cfg : SrcCfg) (stream : Bytes) : List FrameOut := (arun cfg Core.init stream).frames
 
 /-- a PES packet start code `00 00 01 xx` with a stream_id `xx >= 0xBC` begins here -/
 def isStart : Bytes → Bool
   | a :: b :: c :: d :: _ => a = 0 ∧ b = 0 ∧ c = 1 ∧ d ≥ 0xBC
   | _ => false
+
+/-! ## Small stream builders for witnesses (EN 300 472 packets; used by `example`s and counterexamples) -/
+
+/-- stuffing data unit, 46 bytes -/
+def witStuffing : Bytes := 0xFF :: 0x2C :: List.replicate 0x2C 0xFF
+
+/-- EBU Teletext data unit, 46 bytes: `lofp` = reserved/field_parity/line_offset byte, payload `fill` x 42 -/
+def witTtxUnit (lofp fill : Nat) : Bytes := [0x02, 0x2C, lofp, 0xE4] ++ List.replicate 42 fill
+
+/-- a VBI PES packet (N x 184 bytes, PTS `ptsLow` < 128, data_identifier 0x10) around `units`, padded with stuffing units -/
+def witPacket (ptsLow : Nat) (units : Bytes) : Bytes :=
+  let total := (46 + units.length + 183) / 184 * 184
+  let body := units ++ (List.replicate ((total - 46 - units.length) / 46) witStuffing).flatten
+  [0x00, 0x00, 0x01, 0xBD, (total - 6) / 256, (total - 6) % 256, 0x84, 0x80, 0x24,
+   0x21, 0x00, 0x01, 0x00, 2 * ptsLow + 1] ++ List.replicate 31 0xFF ++ [0x10] ++ body
+
+/-- `[stuffing unit] [Teletext unit, line_offset 0, second field]`: legal, 184 bytes -/
+def livelockPacket : Bytes := witPacket 1 (witStuffing ++ witTtxUnit 0xC0 0x31)
+
+/-- 70 Teletext units with an undefined line: more than `dx->sliced[64]` holds -/
+def overflowPacket : Bytes := witPacket 2 (List.replicate 70 (witTtxUnit 0xE0 0x40)).flatten
+
+/-- an ordinary frame: Teletext on line `line` (first field) -/
+def linePacket (ptsLow line fill : Nat) : Bytes := witPacket ptsLow (witTtxUnit (0xE0 + line) fill)
 
 end Zvbi.Demux
